@@ -185,4 +185,20 @@ CLAIMS = {
         'technique': 'static analysis: regex AST, finite-domain decision table of next_section by abstract '
                      'interpretation, def-use provenance of line numbers, registry agreement (ast only)',
     },
+    'C18': {
+        'text': "Never-raises is decided on the exception-edge CFG of Tifa.process_code (parse and traversal raise "
+                "every Exception atom; none may leave; both handlers record fail + one system_error; the analysis is "
+                "returned on all paths). Idempotence is a decision table of tifa_analysis over cache hit/miss by "
+                "abstract interpretation. 'Completes' is attacked through resolution completeness over pedal/tifa and "
+                "pedal/types using Python's own symtable scoping: ~2700 rule instances - every global name read "
+                "binds, every self.X load exists in the class hierarchy (stdlib bases inspected, mixins followed), "
+                "every call resolved to a pedal function/constructor matches arity and keyword names, every visit_X "
+                "names a real node class - plus a table check that every FunctionType entry gives `definition` a "
+                "callable and `returns` a class/lambda/known shorthand (extracted from FunctionType.__init__). "
+                "Determinism: no set-ordered iteration or random feeding issues.",
+        'note': _NOTE + "Not decided: that the analysis completes for every introductory program beyond resolution "
+                        "and table well-formedness; issue lines lying within the source.",
+        'technique': 'static analysis: exception-edge CFG, symtable-based name/attribute/arity resolution over the '
+                     'TIFA packages, table well-formedness, decision table of the cache (ast + symtable only)',
+    },
 }
